@@ -46,6 +46,7 @@ type GhostDecl struct {
 }
 
 type Lemma struct {
+	Induct  string
 	Pkg     string
 	Name    string
 	Params  []Binder
@@ -75,7 +76,7 @@ type Contracts struct {
 
 var clauseKw = map[string]bool{"requires": true, "ensures": true, "modifies": true, "loop": true, "ghost": true, "order": true,
 	"unreachable": true, "props": true, "inline": true, "trusted": true, "ensures_on_panic": true, "publishes": true, "assert": true,
-	"invariant": true, "guarded_by": true, "holds": true, "reads": true, "atomic": true, "callee_frame": true, "decreases": true}
+	"invariant": true, "guarded_by": true, "holds": true, "reads": true, "atomic": true, "immutable": true, "apply": true, "induct": true, "inlines": true, "callee_frame": true, "decreases": true}
 
 var labelRe = regexp.MustCompile(`^\[([A-Za-z0-9_.:\-]+)\]\s*`)
 
@@ -236,16 +237,16 @@ func (cs *Contracts) parseFile(path string) error {
 				params = rest[i+1 : strings.LastIndex(rest, ")")]
 			}
 			lm := &Lemma{Pkg: pkg, Name: strings.TrimSpace(name)}
-			for _, pt := range strings.Split(params, ",") {
+			for _, pt := range splitTargets(params) {
 				pt = strings.TrimSpace(pt)
 				if pt == "" {
 					continue
 				}
-				fs := strings.Fields(pt)
+				fs := strings.SplitN(pt, " ", 2)
 				if len(fs) != 2 {
 					return fmt.Errorf("%s:%d: lemma parameter %q needs 'name sort'", path, ln, pt)
 				}
-				lm.Params = append(lm.Params, Binder{fs[0], fs[1]})
+				lm.Params = append(lm.Params, Binder{fs[0], strings.TrimSpace(fs[1])})
 			}
 			cs.Lemmas = append(cs.Lemmas, lm)
 			curFn, curLemma = nil, lm
@@ -292,6 +293,10 @@ func (cs *Contracts) parseFile(path string) error {
 				return err
 			}
 			switch cl.Kw {
+			case "induct":
+				if curLemma != nil {
+					curLemma.Induct = strings.TrimSpace(cl.Text)
+				}
 			case "props":
 				ps := strings.Fields(cl.Text)
 				if curFn != nil {
